@@ -174,7 +174,11 @@ func cmdCheck(args []string) int {
 	prop := fs.String("prop", "", "property id")
 	tier := fs.String("tier", "quick", "")
 	seed := fs.Int("seed", 0, "")
+	outDir := fs.String("out", "", "directory receiving evidence/ and replays/ (default: -verif)")
 	fs.Parse(args)
+	if *outDir == "" {
+		*outDir = *verif
+	}
 	t0 := time.Now()
 	timeout := 20000
 	agree := false
@@ -269,7 +273,7 @@ func cmdCheck(args []string) int {
 		return nil
 	}
 
-	replayDir := filepath.Join(*verif, "replays", *prop)
+	replayDir := filepath.Join(*outDir, "replays", *prop)
 	os.MkdirAll(replayDir, 0o755)
 	violations := 0
 	discharged := 0
@@ -416,9 +420,9 @@ func cmdCheck(args []string) int {
 			"samples":                  samples,
 			"bounded_stand_ins":        bounded,
 		}}
-	os.MkdirAll(filepath.Join(*verif, "evidence"), 0o755)
+	os.MkdirAll(filepath.Join(*outDir, "evidence"), 0o755)
 	data, _ := json.MarshalIndent(ev, "", " ")
-	os.WriteFile(filepath.Join(*verif, "evidence", *prop+".json"), data, 0o644)
+	os.WriteFile(filepath.Join(*outDir, "evidence", *prop+".json"), data, 0o644)
 	fmt.Printf("fvc: property=%s tier=%s functions=%d obligations=%d discharged=%d violations=%d wall=%.1fs\n", *prop, *tier, len(funcs), len(obls), discharged, violations, time.Since(t0).Seconds())
 	if violations > 0 {
 		return 1
